@@ -15,44 +15,51 @@ fn any_span() -> Span {
     }
 }
 
-// @props C12
-// @fns DebugInfo::push, DebugInfo::get_source_span (the ip -> source span map behind runtime error locations and `debug` line prefixes)
-// @bound up to 4 pushes with strictly increasing instruction pointers (push_op records the current code length before each instruction, instructions are at least two bytes long) and spans from a 9-element domain; query ip over all u32
-// @assume ips are pushed in strictly increasing order (Compiler::push_op pushes bytes.len() before appending at least two bytes)
-// @kani --no-memory-safety-checks --no-assertion-reach-checks
-#[kani::proof]
-#[kani::unwind(7)]
-fn c12_debug_info_lookup() {
-    let n: usize = kani::any();
-    kani::assume(n <= 4);
+fn lookup_case(n: usize) {
     let mut ips = [0u32; 4];
     let mut spans = [Span::default(); 4];
     let mut info = DebugInfo::default();
+    info.source_map.reserve(4); // no reallocation during the pushes
     let mut i = 0;
-    while i < 4 {
+    while i < n {
         let ip: u32 = kani::any();
         let span = any_span();
-        if i < n {
-            kani::assume(i == 0 || ip > ips[i - 1]);
-            ips[i] = ip;
-            spans[i] = span;
-            info.push(ip, span);
-        }
+        kani::assume(i == 0 || ip > ips[i - 1]);
+        ips[i] = ip;
+        spans[i] = span;
+        info.push(ip, span);
         i += 1;
     }
     let q: u32 = kani::any();
     // oracle: linear scan over the uncompressed push log
     let mut want: Option<Span> = None;
     let mut j = 0;
-    while j < 4 {
-        if j < n && ips[j] <= q {
+    while j < n {
+        if ips[j] <= q {
             want = Some(spans[j]);
         }
         j += 1;
     }
     assert!(info.get_source_span(q) == want, "C12.map: an instruction maps to the span of the last push at or before it, whatever was merged");
     assert!(info.source_map.len() <= n, "C12.map: the map never has more entries than pushes");
-    kani::cover!(n == 4 && info.source_map.len() == 2, "two of four pushes merged away");
+    kani::cover!(n >= 2 && info.source_map.len() < n, "a push merged away");
     kani::cover!(want.is_none() && n > 0, "query before the first instruction");
-    kani::cover!(n == 4 && info.source_map.len() == 4 && want == Some(spans[2]), "query inside the third of four entries");
+    std::mem::forget(info);
+}
+
+// @props C12
+// @fns DebugInfo::push, DebugInfo::get_source_span (the ip -> source span map behind runtime error locations and `debug` line prefixes)
+// @bound 0, 1, 2, 3 and 4 pushes (concrete count per block) with strictly increasing instruction pointers (push_op records the current code length before each instruction, instructions are at least two bytes long) and spans from a 9-element domain, so that equal neighbours (the compression case) are frequent; query ip over all u32
+// @assume ips are pushed in strictly increasing order (Compiler::push_op pushes bytes.len() before appending at least two bytes)
+// @kani --no-memory-safety-checks --no-assertion-reach-checks
+// @timeout 1200
+// @mem 10
+#[kani::proof]
+#[kani::unwind(6)]
+fn c12_debug_info_lookup() {
+    lookup_case(0);
+    lookup_case(1);
+    lookup_case(2);
+    lookup_case(3);
+    lookup_case(4);
 }
